@@ -90,6 +90,8 @@ VALUE = st.one_of(
     st.tuples(st.just("M"), st.integers(-5, 5), st.text(alphabet="abc", max_size=3)).map(list),
     st.tuples(st.just("M1"), st.integers(-5, 5)).map(list),
     st.tuples(st.sampled_from(["D", "D+", "DS"]), st.integers(-5, 5), st.lists(st.integers(0, 3), max_size=2)).map(list),
+    st.tuples(st.sampled_from(["NL", "ND"]), st.one_of(st.tuples(st.just("M"), st.integers(-5, 5), st.text(alphabet="abc", max_size=3)).map(list),
+                                                     st.tuples(st.just("D"), st.integers(-5, 5), st.lists(st.integers(0, 3), max_size=2)).map(list))).map(list),
     st.lists(st.integers(0, 9), max_size=3), st.dictionaries(st.text(alphabet="abk", max_size=2), st.integers(0, 9), max_size=2))
 
 
@@ -131,6 +133,10 @@ def parts(tier: str) -> List[Part]:
 
 
 def mkval(v: Any) -> Any:
+    if isinstance(v, list) and len(v) == 2 and v[0] == "NL" and isinstance(v[1], list):
+        return [mkval(v[1]), 5]                    # a model / dataclass INSIDE a list argument
+    if isinstance(v, list) and len(v) == 2 and v[0] == "ND" and isinstance(v[1], list):
+        return {"owner": mkval(v[1]), "n": 1}      # ... inside a dict argument
     if isinstance(v, list) and len(v) == 2 and v[0] == "M1" and isinstance(v[1], int):
         return M(x=v[1])             # a model whose defaulted field was left unset by the caller
     if isinstance(v, list) and len(v) == 3 and v[0] == "M" and isinstance(v[1], int) and isinstance(v[2], str):
@@ -152,6 +158,10 @@ def wire(v: Any) -> Any:
         return v.model_dump()
     if isinstance(v, (D, DS)):
         return dataclasses.asdict(v)      # "dataclasses in their dict form": the fields, nothing else
+    if isinstance(v, list) and v and isinstance(v[0], (M, D, DS)):
+        return [wire(v[0])] + v[1:]
+    if isinstance(v, dict) and isinstance(v.get("owner"), (M, D, DS)):
+        return dict(v, owner=wire(v["owner"]))
     return v
 
 
@@ -331,6 +341,20 @@ def run_case(c: Dict[str, Any]) -> Outcome:
         return out
     if got.get("__shadow_ran__"):
         out.add("C08.a", "the same-named shared task was executed instead of the broker's own task")
+    def _dict_form(v: Any) -> Any:
+        if isinstance(v, M):
+            return v.model_dump()
+        if isinstance(v, (D, DS)):
+            return dataclasses.asdict(v)
+        if isinstance(v, list):
+            return [_dict_form(x) for x in v]
+        if isinstance(v, dict):
+            return {k_: _dict_form(x) for k_, x in v.items()}
+        return v
+
+    # (the kicker turns top-level models / dataclasses into their dict form itself; those nested in a list / dict get theirs when the
+    # message is encoded - the decoded message is compared with that form)
+    m = m.model_copy(update={"args": _dict_form(list(m.args)), "kwargs": _dict_form(dict(m.kwargs))})
     if back != m:
         out.add("C08.c", f"formatter round trip changed the message ({c['codec']}): {short(back, 300)} != {short(m, 300)}")
     if res is None or res.is_err:
